@@ -3,15 +3,61 @@
    producer-index CAS) and "publish" (the slot store).  The implementation is compared with the
    model after every call over all capacity pairs, including states with a producer parked between
    reserve and publish; exactly-once / per-producer order / bound are checked on free-running runs.
-   C16_seq_fifo (the model is a FIFO of capacity max for every push/pop sequence) is NOT yet a Coq
-   theorem: the statements below are the pieces proved so far (named _partial where they fall
-   short of the property). *)
-From Otter Require Import Base Sketch Mpsc MpscFacts.
 
-Theorem C16_refused_only_when_full_partial : forall q v q',
+   Proved here (theories/MpscFifo.v), for EVERY pair of capacities NewMPSC accepts and EVERY
+   sequence of complete pushes and pops — through every growth step (a new buffer of twice the
+   size, JUMP marker, link) and every move of the consumer into the next buffer:
+     - C16_seq_fifo: the queue answers exactly like a FIFO list of capacity roundup32(maximum):
+       every accepted element is returned exactly once, in the order accepted, nothing else is
+       ever returned, "empty" is reported exactly when the list is empty;
+     - C16_refused_exactly_when_full / C16_size_bounded: an offer is refused exactly when the
+       queue holds its maximum, and the size never exceeds it.
+   The producers' interleaving inside a push (several goroutines between reserve and publish) is
+   covered by the statements about the parked window below and by the correspondence engine; the
+   theorem for concurrent producers (linearizability of the CAS loop) is not proved. *)
+From Otter Require Import Base Sketch Mpsc MpscFacts MpscFifo.
+
+Theorem C16_seq_fifo : forall initial maximum ops,
+  2 <= initial <= 2 ^ 31 -> 4 <= maximum <= 2 ^ 31 -> roundup32 initial <= roundup32 maximum ->
+  qrun (mpsc_new initial maximum) ops = frun (roundup32 maximum) [] ops.
+Proof.
+  intros initial maximum ops Hi Hm Hle. destruct (inv_new initial maximum Hi Hm Hle) as [HI Hc].
+  rewrite <- Hc. exact (fifo_refinement ops _ _ HI).
+Qed.
+Print Assumptions C16_seq_fifo.
+
+Theorem C16_size_bounded : forall initial maximum ops,
+  2 <= initial <= 2 ^ 31 -> 4 <= maximum <= 2 ^ 31 -> roundup32 initial <= roundup32 maximum ->
+  let q := qstate (mpsc_new initial maximum) ops in
+  0 <= mpsc_size q <= mpsc_capacity q.
+Proof.
+  intros initial maximum ops Hi Hm Hle. destruct (inv_new initial maximum Hi Hm Hle) as [HI _].
+  destruct (inv_reachable ops _ _ HI) as (segs' & HI'). exact (size_bounded _ _ HI').
+Qed.
+Print Assumptions C16_size_bounded.
+
+Theorem C16_refused_exactly_when_full : forall initial maximum ops v,
+  2 <= initial <= 2 ^ 31 -> 4 <= maximum <= 2 ^ 31 -> roundup32 initial <= roundup32 maximum ->
+  let q := qstate (mpsc_new initial maximum) ops in
+  snd (try_push q v) = false <-> mpsc_size q = mpsc_capacity q.
+Proof.
+  intros initial maximum ops v Hi Hm Hle. destruct (inv_new initial maximum Hi Hm Hle) as [HI _].
+  destruct (inv_reachable ops _ _ HI) as (segs' & HI'). exact (refused_iff_full _ _ v HI').
+Qed.
+Print Assumptions C16_refused_exactly_when_full.
+
+(* the rounding NewMPSC applies: the least power of two >= x *)
+Theorem C16_capacity_rounding : forall x, 1 < x <= 2 ^ 31 -> roundup32 x = 2 ^ Z.log2_up x.
+Proof. exact roundup32_spec. Qed.
+Print Assumptions C16_capacity_rounding.
+
+(* in ANY state (no invariant needed): refusal needs a full index range, "empty" needs the consumer
+   to have caught up, a reserved-but-unpublished slot makes the consumer wait, a pop returns only
+   what is stored *)
+Theorem C16_refused_only_when_full : forall q v q',
   push_reserve q v = (q', RFull) -> q' = q /\ maxcap q - (pidx q - cidx q) <= 0.
 Proof. exact refuse_only_when_full. Qed.
-Print Assumptions C16_refused_only_when_full_partial.
+Print Assumptions C16_refused_only_when_full.
 
 Theorem C16_empty_only_when_caught_up : forall q q', try_pop q = (q', PopEmpty) -> cidx q = pidx q.
 Proof. exact pop_empty_only_when_caught_up. Qed.
